@@ -3207,6 +3207,13 @@ public:
     // Assemble the instructions.
     hexasm::CodeGen asmCodeGen(optimiseDirectives.getInstrs());
 
+    // The program, its global arrays at the top of memory and the words
+    // reserved above the initial stack pointer must fit in memory.
+    size_t programSizeWords = asmCodeGen.getProgramSizeBytes() / 4;
+    if (programSizeWords + codeGen.getGlobalsOffset() + SP_RESERVED_WORDS > static_cast<size_t>(MAX_ADDRESS)) {
+      throw hexutil::Error("program and its global arrays do not fit in memory");
+    }
+
     // Print the assembly instructions only.
     if (action == DriverAction::EMIT_ASM) {
       asmCodeGen.emitProgramText(outStream);
